@@ -15,6 +15,89 @@ def viol(ctx, sig, what, obj):
         ctx.violation(sig, what, obj)
 
 
+def compensated(rng):
+    """heads whose inside weight is exactly 1 although the nonterminals in their bodies have inside weight != 1:
+    e.g. 4: S -> A A with 1/4: A -> a, 1/4: A -> b"""
+    nT = 2
+    kids = {}
+    rules = []
+    for X in (1, 2):
+        zs = [rng.choice([Fraction(1, 4), Fraction(1, 8), Fraction(1, 2)]) for _ in range(rng.randint(1, 2))]
+        for z in zs:
+            rules.append([M.fs(z), X, [["T", rng.randrange(nT)]] if rng.random() < 0.8 else []])
+        kids[X] = sum(zs)
+    body = [rng.choice([1, 2]) for _ in range(rng.randint(1, 2))]
+    zb = Fraction(1)
+    for X in body:
+        zb *= kids[X]
+    top = 3 if rng.random() < 0.5 else 0
+    rules.append([M.fs(1 / zb), top, [["N", X] for X in body]])
+    if top == 3:
+        rules.append([M.fs(rng.choice([Fraction(1, 2), Fraction(1, 3)])), 0, [["N", 3], ["T", rng.randrange(nT)]]])
+        rules.append([M.fs(Fraction(1, 4)), 0, [["N", 3]]])
+    rng.shuffle(rules)
+    return {"S": 0, "nT": nT, "rules": rules}
+
+
+def exact_totals(g):
+    """inside weights of a dependency-acyclic grammar, exactly (harness-side oracle)"""
+    Z = {}
+    for _ in range(len(M.nts_of(g)) + 2):
+        Z2 = {}
+        for w, h, b in g["rules"]:
+            v = Fraction(w)
+            for k, x in b:
+                if k == "N":
+                    v *= Z.get(x, Fraction(0))
+            Z2[h] = Z2.get(h, Fraction(0)) + v
+        Z = Z2
+    return Z
+
+
+def search_exact(ctx, n):
+    """failing-input search that needs no Coq: exact rationals, per-head sums and proportionality vs the harness-side mirror
+    of the reference semantics; grammars built in one go and built incrementally"""
+    gs = []
+    while len(gs) < n:
+        g = compensated(ctx.rng) if len(gs) % 3 == 0 else M.rand_grammar(ctx.rng, nN=ctx.rng.randint(1, 4), nrules=ctx.rng.randint(2, 8))
+        if M.dep_acyclic(g):
+            gs.append(g)
+    strs = [[list(x) for x in M.strings(g["nT"], 3)][:15] for g in gs]
+    qs = []
+    for g, xs in zip(gs, strs):
+        late = ctx.rng.randint(1, max(1, len(g["rules"]) - 1))
+        qs.append({"g": g, "sr": "frac", "queries": [{"op": "locally_normalize", "xs": xs}, {"op": "locally_normalize", "xs": xs, "late": late}]})
+    res = run_jobs(qs)
+    for g, xs, r, job in zip(gs, strs, res, qs):
+        Zs = exact_totals(g)
+        Z = Zs.get(g["S"], Fraction(0))
+        m = M.mirror_exact(g)
+        for q, spec in zip(r, job["queries"]):
+            late = spec.get("late", 0)
+            tag = "incremental:" if late else ""
+            ctx.cov["oracle_cases"] += 1
+            if "err" in q:
+                if Z != 0:
+                    viol(ctx, f"locally_normalize:{tag}error:{q['err'][:30]}", f"locally_normalize raised {q['err']}", {"kind": "norm-error", "sr": "frac", "grammar": g, "late": late, "error": q["err"]})
+                continue
+            o = q["ok"]
+            for hname, hm in o["head_mass"].items():
+                v = dec_val(hm)
+                if v != 1:
+                    viol(ctx, f"locally_normalize:{tag}head-mass", f"rules of {hname} sum to {v} after local normalisation" + (f" (last {late} rules added after the grammar object had been inspected)" if late else ""),
+                         {"kind": "norm", "what": "head_mass", "sr": "frac", "grammar": g, "late": late, "head": hname, "observed": str(v)})
+            if Z != 0:
+                for x, enc in zip(xs, o["values"]):
+                    ref = m.lang(g["S"], x)
+                    if ref is None:
+                        continue
+                    v = dec_val(enc)
+                    ctx.count_case(("exact-oracle", json.dumps(g), late, tuple(x)), nontrivial=ref != 0)
+                    if not close_enough(v, ref / Z):
+                        viol(ctx, f"locally_normalize:{tag}proportional", f"normalised grammar gives {v} to {x}; original weight {ref} / total {Z} = {ref / Z}" + (f" (last {late} rules added after the grammar object had been inspected)" if late else ""),
+                             {"kind": "norm", "what": "proportional", "sr": "frac", "grammar": g, "late": late, "xs": x, "observed": str(v), "expected": str(ref / Z)})
+
+
 def run(ctx):
     quick = ctx.tier == "quick"
     ctx.cov["rule"] = ("locally_normalize and add_EOS on generated grammars: dependency-acyclic grammars with exact rationals (rule weights compared with the Coq model lnorm over the regenerated factor, per-head sums, ln(xs)*Z vs the reference weight), "
@@ -33,12 +116,13 @@ def run(ctx):
         ctx.obligation("coq-build(C20)", False, out[-3000:])
         ok2, _ = ctx.build(["model/Prefix.vo", "model/Norm.vo"])
         if not ok2 or not tr_ok:
+            search_exact(ctx, 150)
             search_float(ctx, 200)
             return
     n = 40 if quick else 400
     gs = []
     while len(gs) < n:
-        g = M.rand_grammar(ctx.rng, nN=ctx.rng.randint(1, 4), nrules=ctx.rng.randint(2, 8))
+        g = compensated(ctx.rng) if len(gs) % 4 == 0 else M.rand_grammar(ctx.rng, nN=ctx.rng.randint(1, 4), nrules=ctx.rng.randint(2, 8))
         if M.dep_acyclic(g):
             gs.append(g)
     # reference: string weights and totals from the model
@@ -118,8 +202,11 @@ def run(ctx):
     ctx.cov["disagreements_checked"] += len(failing)
     for k in failing:
         ctx.broken.append((f"correspondence(lnorm-model)#{k}", f"model lnorm and implementation rule weights differ for {json.dumps(meta[k][0])}"))
+    if failing:
+        search_exact(ctx, 100)
         search_float(ctx, 100)
     ctx.sample({"grammar": gs[0], "strings": strs[0][:4], "Z": str(tot[(0, gs[0]["S"])])})
+    search_exact(ctx, 30 if quick else 300)
     search_float(ctx, 25 if quick else 300)
 
 
@@ -166,7 +253,7 @@ def replay(obj):
     if obj.get("kind") == "eos":
         r = run_jobs([{"g": g, "sr": sr, "queries": [{"op": "add_eos_call", "xs": [obj["tokens"]]}]}])[0][0]
     else:
-        r = run_jobs([{"g": g, "sr": sr, "queries": [{"op": "locally_normalize", "xs": [obj.get("xs", [])]}]}])[0][0]
+        r = run_jobs([{"g": g, "sr": sr, "queries": [{"op": "locally_normalize", "xs": [obj.get("xs", [])], "late": obj.get("late", 0)}]}])[0][0]
     print("grammar:", json.dumps(g))
     print("->", json.dumps(r)[:1500], "expected:", obj.get("expected"))
     return 0
